@@ -66,6 +66,8 @@ def run_world(world, idx=0, timeout=180, hashseed='0', extra_env=None, keep=Fals
         spec['preset'] = True
     if world.get('stdout_encoding'):
         spec['stdout_encoding'] = world['stdout_encoding']
+    if world.get('odd'):
+        spec['odd'] = world['odd']
     if world.get('via'):
         spec['via'] = world['via']
     if world.get('falsy_streams'):
